@@ -80,9 +80,7 @@ theorem C17_new_len_counts :
       .ok (true, (1, some 1)) := by decide
 
 /-- non-vacuity: that list is accepted by the decoder (followed by an unrelated byte), with this very view -/
-example : (decTxOuts ⟨0, Acc.twoOuts ++ [9]⟩).res = .ok (⟨⟨0, Acc.twoOuts⟩, 2⟩, ⟨20, [9]⟩) := by decide
-
-/-! ## L1 corollaries (generated by tools/genlift.py) -/
+example : (decTxOuts ⟨0, Acc.twoOuts ++ [9]⟩).res = .ok (⟨⟨0, Acc.twoOuts⟩, 2⟩, ⟨20, [9]⟩) := by decide/-! ## L1 corollaries (generated by tools/genlift.py) -/
 section L1
 open BS.Ref BS.Lift
 
